@@ -49,6 +49,12 @@ ASSUMPTIONS = ["VLoop keeps asyncio FIFO semantics; only clock and I/O readiness
                "SimNet TCP pipes are reliable and ordered; UDP faults are applied only to what a peer feeds to the proxy",
                "a peer RST is not a half-close: towards/after a resetting peer only prefix-safety is demanded",
                "an empty UDP datagram is not generated (the stream API reads b'' as 'closed')",
+               "a UDP 'close' by a peer = the mitmproxy_rs stream reporting end-of-stream (read() -> b''); the other way a UDP "
+               "flow ends is the 20 s idle timeout, which the 'idle' op and the final settle exercise",
+               "a client FIN/RST before the next layer is decided makes NextLayer abort the connection by design; a flow "
+               "started afterwards is reported once (flow_started_after_client_aborted) and not judged further",
+               "same-instant events on the two sockets may be processed in either order; once a RST is involved, or after the "
+               "flow's error hook, only prefix-safety (nothing invented, duplicated or reordered) is demanded",
                "the first client payload does not look like a TLS/DTLS record (that would select the TLS layers)"]
 EXPECTED_PROBES = ["tcp_flows", "udp_flows", "half_close_relayed", "injected_recorded", "edited", "edited_len_change",
                    "async_hook", "close_while_hook_pending", "flow_error", "rst", "udp_timeout_end", "server_first",
@@ -295,7 +301,7 @@ def oracle(sc, obs):
     # everything that follows in such a run is a consequence
     start_seq = min((h[0] for h in hooks if h[2].endswith("_start")), default=None)
     cclose = min((e[0] for e in obs.events if e[2] == "close" and e[3] == "client"), default=None)
-    if start_seq is not None and cclose is not None and cclose < start_seq:
+    if P == "tcp" and start_seq is not None and cclose is not None and cclose < start_seq:
         probes["flow_after_client_aborted"] = 1
         nrec = len(obs.final[fid])
         if P == "tcp" and getattr(c, "fin_at", None) and not c.peer_reset:
@@ -485,13 +491,18 @@ def oracle(sc, obs):
         must_end = sc.get("settle", 0) >= 22
     if term is None and must_end:
         rst = P == "tcp" and bool(c.peer_reset or (s is not None and s.peer_reset))
-        v.append(_V("no_end_hook", {"proto": P, "pending_hooks": sorted(set(obs.pending_hooks)),
-                                    "client_handler_done": bool(obs.handler_done), "rst": rst,
-                                    "upstream_connected": s is not None,
-                                    "open_connection_completed_delivered": "open_completed" in obs.delivered,
-                                    "connection_closed_delivered": sorted(x[7:] for x in set(obs.delivered) if x.startswith("closed_"))},
-                    f"flow never fired {P}_end/{P}_error by quiescence (client handler finished: {obs.handler_done}); "
-                    f"hooks={names}; pending={obs.pending_hooks}"))
+        # which event that the layer is waiting for never reached it (observed at ConnectionHandler.server_event)
+        if "open_completed" not in obs.delivered:
+            lost = "open_connection_completed"
+        elif P == "tcp" and any(conn is not None and (conn.peer_eof or conn.peer_reset) and f"closed_{conn.kind}" not in obs.delivered
+                                for conn in (c, s)):
+            lost = "connection_closed"
+        else:
+            lost = "none"
+        v.append(_V("no_end_hook", {"proto": P, "pending_hooks": sorted(set(obs.pending_hooks)), "rst": rst,
+                                    "event_never_delivered": lost},
+                    f"flow never fired {P}_end/{P}_error by quiescence (client handler finished: {obs.handler_done}, events "
+                    f"delivered to the layers: {sorted(set(obs.delivered))}); hooks={names}; pending={obs.pending_hooks}"))
     if P == "udp" and term is not None and not any(e[2] == "peer_close" for e in obs.events):
         probes["udp_timeout_end"] = 1
     if obs.notes:
